@@ -16,7 +16,8 @@ import logging
 from bert_e import exceptions
 from bert_e.job import APIJob, PullRequestJob, handler
 from bert_e.workflow.git_utils import clone_git_repo, push
-from bert_e.workflow.gitwaterflow.branches import (branch_factory,
+from bert_e.workflow.gitwaterflow.branches import (QueueBranch,
+                                                   branch_factory,
                                                    build_queue_collection)
 
 
@@ -52,10 +53,12 @@ def rebuild_queues(job: RebuildQueuesJob):
     if not queue_branches:
         raise exceptions.JobSuccess()
 
-    branch_factory(
-        repo,
-        'development/{}'.format(queue_branches[0].version)
-    ).checkout()
+    # leave the q/* branches before deleting them: check out the destination
+    # of a queue, whichever kind it is (development, stabilization, hotfix)
+    for branch in queue_branches:
+        if isinstance(branch, QueueBranch):
+            branch.dst_branch.checkout()
+            break
 
     for branch in queue_branches:
         branch.remove(do_push=False)
